@@ -6,7 +6,7 @@ from ..ref import P, to32
 REQUIRED = ['vec:avx2:mul', 'vec:avx2:square', 'vec:avx2:reduce', 'vec:avx2:negate_lazy', 'vec:avx2:neg', 'vec:avx2:diff_sum',
             'vec:avx2:shuffle', 'vec:avx2:blend', 'vec:avx2:mul_consts', 'vec:avx2:new', 'vec:avx2:atbound']
 REQUIRED_IFMA = ['vec:ifma:mul', 'vec:ifma:square', 'vec:ifma:reduce', 'vec:ifma:negate_lazy', 'vec:ifma:neg', 'vec:ifma:diff_sum',
-                 'vec:ifma:shuffle', 'vec:ifma:blend', 'vec:ifma:mul_consts', 'vec:ifma:new', 'vec:ifma:atbound']
+                 'vec:ifma:shuffle', 'vec:ifma:blend', 'vec:ifma:shuffle-reduced', 'vec:ifma:blend-reduced', 'vec:ifma:mul_consts', 'vec:ifma:new', 'vec:ifma:atbound']
 
 
 class VGen:
@@ -141,6 +141,18 @@ class VGen:
                 ctx.add(self.pfx + '.op', 'blend', vm.tok(a), vm.tok(b), ls,
                         expect=lambda t, a=a, b=b, ls=ls: None if m.lanes(vm.parse(t[0])) == vm.blend_model(m.lanes(a), m.lanes(b), ls) else 'blend %s took the wrong lanes' % ls,
                         cls='vec:%s:blend' % name, info='repr')
+            if name == 'ifma':
+                # the reduced type has its own copies of shuffle and blend
+                ra_, _ = self.operand('R')
+                rb_, _ = self.operand('R')
+                for s_ in rng.sample(shuffles, 2):
+                    ctx.add(self.pfx + '.opr', 'shuffle', vm.tok(ra_), s_,
+                            expect=lambda t, a=ra_, s=s_: None if m.lanes(vm.parse(t[0])) == vm.shuffle_model(m.lanes(a), s) else 'shuffle %s (reduced type) moved the wrong lanes' % s,
+                            cls='vec:ifma:shuffle-reduced', info='repr')
+                for ls in rng.sample(lanesets, 2):
+                    ctx.add(self.pfx + '.opr', 'blend', vm.tok(ra_), vm.tok(rb_), ls,
+                            expect=lambda t, a=ra_, b=rb_, ls=ls: None if m.lanes(vm.parse(t[0])) == vm.blend_model(m.lanes(a), m.lanes(b), ls) else 'blend %s (reduced type) took the wrong lanes' % ls,
+                            cls='vec:ifma:blend-reduced', info='repr')
             a2, _ = self.operand(m.PRE['add'][0])
             b2, _ = self.operand(m.PRE['add'][1])
             ctx.add(self.pfx + '.op', 'add', vm.tok(a2), vm.tok(b2),
